@@ -138,6 +138,10 @@ func writeObject(w io.Writer, value any) error {
 			}
 		}
 		return nil
+	case reflect.Map:
+		// print nested Drops and pointers as the values they stand for
+		_, err := io.WriteString(w, fmt.Sprint(values.Plain(value)))
+		return err
 	case reflect.Ptr:
 		return writeObject(w, reflect.ValueOf(value).Elem())
 	default:
